@@ -103,6 +103,8 @@ pub struct LawOut {
     pub violation: Option<(String, String)>, // class, detail
     /// signature tags of a law violation (size and place of the deviation)
     pub vtags: Vec<String>,
+    /// stuck-source bursts executed (geometry)
+    pub bursts: u64,
     pub digest: u64,
     pub skipped_tests: u64,
 }
@@ -697,6 +699,41 @@ pub fn geometry_test(spec: &DistSpec, n: u64, seed: u64) -> Result<(LawOut, u64)
     };
     let mut total = LawOut::default();
     let mut tests = 0u64;
+    // ---- stuck-source bursts (fault kind F9) ----------------------------------------
+    // The norm / NaN clause holds for EVERY stream: K consecutive draws return the same
+    // boundary word (a stalled entropy source), then the seeded stream resumes.  A rejection
+    // loop may legitimately spin through the burst; what it returns afterwards must still be
+    // on the circle / sphere or inside the disc / ball.
+    {
+        let lattice = crate::simrng::boundary_lattice();
+        let mut bursts = 0u64;
+        for (li, (kind, inj)) in lattice.iter().enumerate() {
+            for &k in &[2u64, 3, 6, 12, 33, 97, 300] {
+                for start in 0..3u64 {
+                    let faults: Vec<crate::simrng::Fault> = (start..start + k).map(|pos| crate::simrng::Fault { pos, inject: *inj }).collect();
+                    let mut rng = SimRng::with_faults(mix(&[seed, 0xB0257, li as u64, k, start]), faults);
+                    rng.budget = 100_000;
+                    bursts += 1;
+                    if bursts & 0xff == 0 {
+                        mark_call(bursts);
+                    }
+                    let verdict = match guarded(|| obj.sample(&mut rng)) {
+                        Caught::Ok(o) => support::check(spec, &o).map(|(c, d)| (c.to_string(), d)),
+                        Caught::Panic { msg, loc } => Some(("panic".to_string(), format!("{msg} @ {loc}"))),
+                        Caught::Budget(_) => Some(("word-budget".to_string(), "word budget exceeded".to_string())),
+                    };
+                    total.words += rng.pos;
+                    if let Some((c, d)) = verdict {
+                        total.samples += bursts;
+                        total.violation = Some((c, format!("{label}: after a burst of {k} identical words ({kind}) at positions {start}..{}: {d}", start + k)));
+                        return Ok((total, tests));
+                    }
+                }
+            }
+        }
+        total.samples += bursts;
+        total.bursts = bursts;
+    }
     for (si, (name, pick)) in scalars.iter().enumerate() {
         let sub_label = format!("{label}: {name}");
         let mut draw = |rng: &mut SimRng, buf: &mut [f64]| -> Result<(), (String, String)> {
@@ -1082,6 +1119,8 @@ impl Engine for LawEngine {
                         res.keys.push(hash_key(&[&spec.label(), &t.to_string()]));
                     }
                     res.digest = o.digest;
+                    res.inj("F9-stuck-source-burst", o.bursts);
+                    res.fired("F9-stuck-source-burst", o.bursts);
                     res.samples.push(json!({"sampler": spec.label(), "N": n, "scalar_tests": tests, "worst_dkw_ratio": o.info.worst_dkw_ratio, "worst_cell_margin": o.info.worst_cell_margin}));
                     let vt = o.vtags.clone();
                     if let Some((c, d)) = o.violation {
